@@ -970,7 +970,24 @@ func mAtoi(ex *Exec, args []Val) Val {
 func mParseFloat(ex *Exec, args []Val) Val {
 	s, ok := args[0].(Str).conc()
 	if !ok {
-		unsupported("ParseFloat on symbolic digits")
+		// symbolic digits: strings over [0-9.] only (what plush's lexer produces);
+		// valid iff at most one dot and at least one digit; the value is unknown
+		str := args[0].(Str)
+		ex.needBytes(str, "ParseFloat")
+		dots, digits := 0, 0
+		for _, b := range str.B {
+			if ex.byteIn(b, ".") {
+				dots++
+			} else if ex.byteIn(b, "0123456789") {
+				digits++
+			} else {
+				unsupported("ParseFloat on symbolic non-numeric bytes")
+			}
+		}
+		if dots > 1 || digits == 0 {
+			return Tuple{Float{W: 64}, ex.newError(Str{B: []Int{ex.opaque()}})}
+		}
+		return Tuple{Float{W: 64, U: true}, nil}
 	}
 	bits := ex.concInt(args[1], "ParseFloat bits")
 	v, err := strconv.ParseFloat(s, bits)
